@@ -1,11 +1,16 @@
 /-
-  Reference semantics for the cut-free, negation-free fragment: depth-first, left-to-right,
-  clause-order resolution as a machine whose whole state is a stack of frames (top first),
-  the variable counter and the text written so far.
+  Reference semantics for the cut-free fragment (calls, built-ins, `,`, `;`, `not`): depth-first,
+  left-to-right, clause-order resolution as a machine whose whole state is a stack of frames (top
+  first), the variable counter and the text written so far.
 
     goals k σ          "continue with the goal list k under σ"; `goals [] σ` is an answer
     try t σ idx n k    "clauses idx .. n-1 of the predicate of t are still to be tried for the
                         call t (made under σ, followed by k)"
+    notF A σ k         "negation in progress": A is the stack of a search of its own for the negated
+                        goal (started under σ); when A runs empty the negation succeeds and `k`
+                        continues under the UNCHANGED σ; as soon as A shows an answer the negation
+                        fails and A is thrown away, bindings and alternatives alike.  The counter and
+                        the text written by the inner search are kept in both cases.
 
   One (silent) step pops the top frame and pushes what it stands for; a frame `goals [] σ` on top is an
   ANSWER σ — it is not popped by a silent step but by the observer (`MRun` below), so the silent
@@ -23,6 +28,7 @@ open Suiron
 inductive PFrame where
   | goals (k : List Goal) (σ : Subst)
   | try (t : Term) (σ : Subst) (idx n : Nat) (k : List Goal)
+  | notF (alts : List PFrame) (σ : Subst) (k : List Goal)
 
 structure PConf where
   stack : List PFrame
@@ -61,6 +67,16 @@ inductive PStep (fo : FloatOps) (kb : KB) : PConf → PConf → Prop where
   | clauseFail {t σ idx n k S c o key rule c' f} : termKey fo.showF t = .ok key → getRule kb key idx c = .ok (rule, c') →
       unify fo f rule.head t σ = .fail →
       PStep fo kb ⟨.try t σ idx n k :: S, c, o⟩ ⟨tryFrame t σ (idx + 1) n k ++ S, c, o⟩
+  /-- negation: the negated goal (the first operand) gets a search of its own -/
+  | notEnter {g gs k σ S c o} :
+      PStep fo kb ⟨.goals (.not (.cons g gs) :: k) σ :: S, c, o⟩ ⟨.notF [.goals [g] σ] σ k :: S, c, o⟩
+  /-- a step of the inner search -/
+  | notIn {A A' σ k S c o c' o'} : PStep fo kb ⟨A, c, o⟩ ⟨A', c', o'⟩ →
+      PStep fo kb ⟨.notF A σ k :: S, c, o⟩ ⟨.notF A' σ k :: S, c', o'⟩
+  /-- the inner search ran empty: the negation holds, nothing is bound -/
+  | notOk {σ k S c o} : PStep fo kb ⟨.notF [] σ k :: S, c, o⟩ ⟨.goals k σ :: S, c, o⟩
+  /-- the inner search shows an answer: the negation fails, once and for all -/
+  | notFail {σ' A σ k S c o} : PStep fo kb ⟨.notF (.goals [] σ' :: A) σ k :: S, c, o⟩ ⟨S, c, o⟩
 
 /-- zero or more steps -/
 inductive PSteps (fo : FloatOps) (kb : KB) : PConf → PConf → Prop where
@@ -73,6 +89,13 @@ theorem PSteps.trans {fo : FloatOps} {kb : KB} {a b c : PConf} (h1 : PSteps fo k
   | step hs _ ih => exact .step hs (ih h2)
 
 theorem PSteps.one {fo : FloatOps} {kb : KB} {a b : PConf} (h : PStep fo kb a b) : PSteps fo kb a b := .step h .refl
+
+/-- a run of the inner search is a run of the frame that holds it -/
+theorem PSteps.notIn {fo : FloatOps} {kb : KB} {x y : PConf} (h : PSteps fo kb x y) (σ : Subst) (k : List Goal) (S : List PFrame) :
+    PSteps fo kb ⟨.notF x.stack σ k :: S, x.ctr, x.out⟩ ⟨.notF y.stack σ k :: S, y.ctr, y.out⟩ := by
+  induction h with
+  | refl => exact .refl
+  | step hs _ ih => exact .step (.notIn hs) ih
 
 /-- the observable behaviour of the machine from a configuration: the sequence of what successive
     requests see — `some σ` with the text written so far when silent steps lead to an answer frame (which
